@@ -857,6 +857,7 @@ func oracle(c rescorr.Case, ms *yang.Modules, errs []error, out *rescorr.GoOut) 
 	f := findings{out}
 	ix := indexAST(ms)
 	if k.Variant == "corpus" {
+		checkBinding(k, ix, f)
 		if len(errs) == 0 {
 			checkCorpus(k, ms, ix, f)
 		}
@@ -932,13 +933,15 @@ func main() {
 				BaseNames []string      `json:"base_names"`
 				BaseTexts []string      `json:"base_texts"`
 				Sites     []gen.C06Site `json:"sites"`
+				// expected binding of uses statements (location of the statement, of the grouping)
+				Uses []gen.C06UseRef `json:"uses"`
 			}
 			if err := json.Unmarshal(raw, &cc); err != nil || len(cc.Names) == 0 {
 				lib.Fatal("corpus file %s: %v", p, err)
 			}
-			kn := know{Variant: "corpus", ExpectExtras: cc.ExpectExtras}
+			kn := know{Variant: "corpus", ExpectExtras: cc.ExpectExtras, Uses: cc.Uses}
 			if cc.Variant == "mut" {
-				kn = know{Variant: "mut", Sites: cc.Sites, BaseNames: cc.BaseNames, BaseTexts: cc.BaseTexts}
+				kn = know{Variant: "mut", Sites: cc.Sites, BaseNames: cc.BaseNames, BaseTexts: cc.BaseTexts, Uses: cc.Uses}
 			}
 			kb, _ := json.Marshal(kn)
 			cases = append(cases, rescorr.Case{Names: cc.Names, Texts: cc.Texts, Extra: map[string]string{"c06": string(kb), "origin": "corpus/" + filepath.Base(p)}})
@@ -1081,9 +1084,10 @@ func main() {
 	}
 	res.Evaluations = total
 	res.DistinctNontrivial = distinct.Len()
-	res.Rule = "corpus/C06 (witnesses of D62), then seeded grouping-heavy module sets (harness/gen/c06.go: 1-3 modules, 0-3 submodules each with include chains, groupings at " +
+	res.Rule = "corpus/C06 (witnesses of D62 and of the seeded changes C06-c1, C06-d2), then seeded grouping-heavy module sets (harness/gen/c06.go: 1-3 modules, 0-3 submodules each with include chains, groupings at " +
 		"module level, in submodules, in containers/lists/operations/notifications and inside groupings, tiny name pools so that shadowing is " +
-		"frequent, nested uses, typedef t and identity idn defined per module so that resolving in the wrong scope shows, every reachable " +
+		"frequent, submodules whose belongs-to prefix differs from the module's own prefix and which import another module under the " +
+		"module's own prefix or a sibling's belongs-to prefix, nested uses, typedef t and identity idn defined per module so that resolving in the wrong scope shows, every reachable " +
 		"grouping given at least two instances; nodes, groupings and uses statements carrying 0-4 if-feature and extension statements - three " +
 		"being the case in which append leaves one spare slot - and when / status / reference / description), each as a base variant and as a variant in which one or two instances are changed by augments " +
 		"and deviations (not-supported; add, replace, delete of every property: units, default, type, config, mandatory, min/max-elements); distinct_nontrivial = distinct variants (by text) that process cleanly and " +
